@@ -231,6 +231,8 @@ type c07Scenario struct {
 	cause bool
 	// filters: always-true filter callbacks are installed, so the decoders' filter path runs
 	filters bool
+	// nilCtx: the scanner is constructed with a nil context (Close / run-to-the-end stops)
+	nilCtx bool
 }
 
 // c07CloseMark records the moment Close has returned.
@@ -360,6 +362,9 @@ func c07Run(res *fw.Result, in c07Input, sc c07Scenario, key string) {
 	if sc.foreign {
 		fc := &c07ForeignCtx{Context: context.Background(), done: make(chan struct{})}
 		ctx, cancel = fc, fc.cancel
+	}
+	if sc.nilCtx {
+		ctx = nil // both constructors document a nil context as context.Background()
 	}
 	defer cancel()
 	index := map[c08Key]int{}
@@ -835,6 +840,7 @@ func c07Exec(c fw.Case) *fw.Result {
 		sc.filters = (bits>>4)%2 == 0
 		for _, fo := range foreigns {
 			sc.foreign = fo && !sc.cause
+			sc.nilCtx = !sc.foreign && !sc.cause && (sc.stop == "close" || sc.stop == "none") && (bits>>6)%3 == 0
 			key := fmt.Sprintf("C07/%s/%s", target, sc.stop)
 			if sc.faultAt > 0 {
 				key += "/fault"
@@ -847,7 +853,7 @@ func c07Exec(c fw.Case) *fw.Result {
 			case k >= N:
 				kc = "end"
 			}
-			res.Eval(fmt.Sprintf("%s/%s/procs%d/%s/post%s/f%v/foreign%v/err%v/cause%v/filt%v", target, sc.stop, sc.procs, kc, sc.post, sc.faultAt > 0, sc.foreign, sc.errEach, sc.cause, sc.filters))
+			res.Eval(fmt.Sprintf("%s/%s/procs%d/%s/post%s/f%v/foreign%v/err%v/cause%v/filt%v/nil%v", target, sc.stop, sc.procs, kc, sc.post, sc.faultAt > 0, sc.foreign, sc.errEach, sc.cause, sc.filters, sc.nilCtx))
 		}
 	}
 	res.Sample = map[string]any{"target": target, "size": c.Str("size"), "objects": N, "procs": sc.procs, "stop": sc.stop, "post": sc.post, "k_values": len(ks), "fault_at_read_call": sc.faultAt}
@@ -969,7 +975,7 @@ func init() {
 		ID:    "C07",
 		Level: "fault_enumeration",
 		Rule: "call histories Header? Scan×k stop post-ops for EVERY k=0..N+1 of small PBF (with and without header block) and XML inputs × stop kind {Close, cancel from the scanning goroutine, cancel from a second goroutine overlapping further Scans, cancel immediately followed by Close with a slow reader} × decoders {1,2,4,16} (race build), checked for linearizability against a sequential scanner model with porcupine; " +
-			"1000-block inputs with a counting reader for the bytes consumed after the stop; cancellation from the reader goroutine's Read callback or a timer with a slow consumer under the race detector; histories with an injected I/O error (plain, wrapping io.EOF as a lost connection does, or being context.Canceled / DeadlineExceeded themselves while the scanner's own context is live); Err() asked after every Scan in a third of the histories; contexts cancelled with a cause (WithCancelCause); always-true filter callbacks, every seventh one slow, installed in half of the PBF histories (the decoders' filter path under the race detector; no callback may start once Close has returned); parent contexts implemented outside package context with Close / run-to-the-end stops, after which no context-watcher goroutine may be left; a rejected first block followed by Close; endless input with a logical byte budget. " +
+			"1000-block inputs with a counting reader for the bytes consumed after the stop; cancellation from the reader goroutine's Read callback or a timer with a slow consumer under the race detector; histories with an injected I/O error (plain, wrapping io.EOF as a lost connection does, or being context.Canceled / DeadlineExceeded themselves while the scanner's own context is live); Err() asked after every Scan in a third of the histories; contexts cancelled with a cause (WithCancelCause); nil contexts for the Close / run-to-the-end stops; always-true filter callbacks, every seventh one slow, installed in half of the PBF histories (the decoders' filter path under the race detector; no callback may start once Close has returned); parent contexts implemented outside package context with Close / run-to-the-end stops, after which no context-watcher goroutine may be left; a rejected first block followed by Close; endless input with a logical byte budget. " +
 			"Signature = (target, stop kind, decoders, stop-position class, post-ops, fault injected).",
 		Assumptions: []string{
 			"after a complete scan followed by Close/cancel, Err may be nil or the closed/context error (both satisfy the stated precedence)",
